@@ -209,7 +209,19 @@ func observe(base, mode string, depth int, targets []string) ([]Obs, error) {
 		return observeScan(base, depth, targets)
 	}
 	if mode == "retarget" {
-		return observeTransitionFrom(base, depth, targets, retargetOld)
+		// In batches: tens of thousands of pre-existing links in one
+		// directory make every lookup in it slow.
+		var all []Obs
+		for start := 0; start < len(targets); start += 2000 {
+			chunk := targets[start:min(start+2000, len(targets))]
+			obs, err := observeTransitionFrom(base, depth, chunk, retargetOld)
+			if err != nil {
+				return nil, err
+			}
+			all = append(all, obs...)
+			removeLinks(base, depth, len(chunk))
+		}
+		return all, nil
 	}
 	return observeTransition(base, depth, targets)
 }
